@@ -230,6 +230,7 @@ class Ctx(object):
         ev.consts = self.consts
         ev.new_const = self.new_const
         ev.obs = self.obs_fields()
+        ev.error_has_source = self.error_has_source
         return ev
 
     def obs_fields(self):
@@ -352,6 +353,13 @@ class Ctx(object):
                         changed = True
         self._obs = obs
         return obs
+
+    def error_has_source(self, variant_path):
+        """errors::Error::X has a `source` field (so a context selector on a Result wraps the underlying error)"""
+        if getattr(self, '_err_src', None) is None:
+            e = self.adts.get('errors::Error')
+            self._err_src = set('errors::Error::' + v['name'] for v in (e or {}).get('variants', []) if any(f['name'] == 'source' for f in v['fields']))
+        return variant_path in self._err_src
 
     def vocab_fields(self, adt):
         """field names the oracle vocabulary knows for a struct (pinned tree)"""
